@@ -1,7 +1,7 @@
 /-
   `Repair` (property C12), part 1: the loop over the classes computes, for every class, a
   function of the *original* table only; the result is independent of the order in which the
-  classes are visited; explicit form of the result when no class overflows.  Core Lean only.
+  classes are visited; explicit form of the result; `Repair` never panics.  Core Lean only.
 -/
 import Gts.Spec.RepairGuard
 namespace Gts
@@ -23,6 +23,10 @@ theorem filterMap_congr' {α β} (l : List α) (f g : α → Option β) (h : ∀
   | cons a as ih =>
     simp only [List.filterMap_cons]
     rw [h a (by simp), ih fun x hx => h x (by simp [hx])]
+
+theorem classKey_congr {f g : Feature} (h1 : g.key = f.key) (h2 : g.props = f.props) :
+    classKey g = classKey f := by
+  simp [classKey, classKeyChars, h1, h2]
 
 /-! ### `sortNat` -/
 
@@ -77,17 +81,6 @@ theorem sortNat_eq_self_of_sorted {a b : List Nat} (h : a.Perm b) (hb : b.Pairwi
     sortNat a = b :=
   ((sortNat_perm a).trans h).eq_of_pairwise
     (le := (· ≤ ·)) (fun _ _ _ _ h1 h2 => Nat.le_antisymm h1 h2) (sortNat_sorted a) hb
-
-/-! ### `goCap` -/
-
-theorem le_goCap (n : Nat) : n ≤ goCap n := by
-  induction n with
-  | zero => simp [goCap]
-  | succ n ih =>
-    simp only [goCap]
-    split
-    · omega
-    · split <;> omega
 
 /-! ### `writeLocs` -/
 
@@ -172,13 +165,9 @@ def classP (t : Table) (idx : List Nat) : List Loc := pushedOf (classForce t idx
 /-- `len(list.Slice())` of the class -/
 def classN (t : Table) (idx : List Nat) : Nat := sliceLen (classP t idx)
 
-/-- the class panics at `indices[:len(locs)]` -/
-def classPanics (t : Table) (idx : List Nat) : Bool := decide (goCap idx.length < classN t idx)
-
-/-- what the class appends to `keep` (when it does not panic) -/
+/-- what the class appends to `keep` -/
 def classKept (t : Table) (idx : List Nat) : List Nat :=
-  if classN t idx ≤ idx.length then idx.take (classN t idx)
-  else idx ++ List.replicate (classN t idx - idx.length) 0
+  if classN t idx < idx.length then idx.take (classN t idx) else idx
 
 /-- the location writes of the class -/
 def classWrites (t : Table) (idx : List Nat) : List (Nat × Loc) :=
@@ -199,21 +188,26 @@ theorem classLocs_congr (gg t : Table) (idx : List Nat) (h : ∀ i ∈ idx, gg[i
 theorem classStep_eq (t : Table) (st : RepairSt) (idx : List Nat)
     (h : ∀ i ∈ idx, st.gg[i]? = t[i]?) :
     classStep t st idx =
-      if classPanics t idx then none
-      else some ⟨writeLocs st.gg (classWrites t idx), st.keep ++ classKept t idx,
-                 st.nil || classNil t idx⟩ := by
-  simp only [classStep, classLocs_congr st.gg t idx h, sliceIndices, classPanics, classKept,
-    classWrites, classNil, classN, classP]
-  by_cases h1 : goCap idx.length < sliceLen (pushedOf (classForce t idx) (classLocs t idx))
-  · simp [h1]
-  · simp only [h1, if_false, decide_false, Bool.false_eq_true]
-    by_cases h2 : sliceLen (pushedOf (classForce t idx) (classLocs t idx)) ≤ idx.length
-    · simp only [h2, if_true]
-      by_cases h3 : sliceLen (pushedOf (classForce t idx) (classLocs t idx)) < idx.length
-      · simp [h3]
-      · simp [h3, writeLocs]
-    · have h3 : ¬ sliceLen (pushedOf (classForce t idx) (classLocs t idx)) < idx.length := by omega
-      simp [h2, h3, writeLocs]
+      ⟨writeLocs st.gg (classWrites t idx), st.keep ++ classKept t idx, st.nil || classNil t idx⟩ := by
+  simp only [classStep, classLocs_congr st.gg t idx h, classKept, classWrites, classNil, classN, classP]
+  by_cases h3 : sliceLen (pushedOf (classForce t idx) (classLocs t idx)) < idx.length
+  · simp [h3]
+  · simp [h3, writeLocs]
+
+theorem classKept_eq_take (t : Table) (idx : List Nat) : classKept t idx = idx.take (classN t idx) := by
+  simp only [classKept]
+  split
+  · rfl
+  · rw [List.take_of_length_le (by omega)]
+
+theorem classKept_sublist (t : Table) (idx : List Nat) : (classKept t idx).Sublist idx := by
+  rw [classKept_eq_take]; exact List.take_sublist _ _
+
+theorem classN_pos (t : Table) (idx : List Nat) : 0 < classN t idx := by
+  simp only [classN, sliceLen]
+  cases h : classP t idx with
+  | nil => simp
+  | cons a as => simp
 
 theorem zip_fst_sublist {α β} (a : List α) (b : List β) : ((a.zip b).map Prod.fst).Sublist a := by
   induction a generalizing b with
@@ -233,50 +227,38 @@ theorem classWrites_keys_sublist (t : Table) (idx : List Nat) :
 /-! ### the loop over the classes -/
 
 /-- the loop over pairwise disjoint classes, started on a table that agrees with the original
-on those classes: every class contributes its own writes / kept indices, a panic of any class
-is a panic of the loop -/
-theorem foldlM_classStep (t : Table) (cs : List (List Nat)) (st : RepairSt)
+on those classes: every class contributes its own writes / kept indices -/
+theorem foldl_classStep (t : Table) (cs : List (List Nat)) (st : RepairSt)
     (hnd : cs.flatten.Nodup) (hag : ∀ i ∈ cs.flatten, st.gg[i]? = t[i]?) :
-    cs.foldlM (classStep t) st =
-      if cs.any (classPanics t) then none
-      else some ⟨writeLocs st.gg (cs.flatMap (classWrites t)), st.keep ++ cs.flatMap (classKept t),
-                 st.nil || cs.any (classNil t)⟩ := by
+    cs.foldl (classStep t) st =
+      ⟨writeLocs st.gg (cs.flatMap (classWrites t)), st.keep ++ cs.flatMap (classKept t),
+       st.nil || cs.any (classNil t)⟩ := by
   induction cs generalizing st with
   | nil => simp [writeLocs]
   | cons c cs ih =>
     simp only [List.flatten_cons, List.nodup_append] at hnd
     obtain ⟨hc, hcs, hdis⟩ := hnd
     have hagc : ∀ i ∈ c, st.gg[i]? = t[i]? := fun i hi => hag i (by simp [hi])
-    simp only [List.foldlM_cons, classStep_eq t st c hagc, List.any_cons]
-    by_cases hp : classPanics t c = true
-    · simp [hp]
-    · simp only [hp, Bool.false_or, if_false, Bool.false_eq_true]
-      simp only [Option.bind_eq_bind, Option.bind_some]
-      rw [ih]
-      · by_cases hq : cs.any (classPanics t) = true
-        · simp [hq]
-        · simp only [hq, if_false, Bool.false_eq_true, List.flatMap_cons, writeLocs_append,
-            List.append_assoc, Bool.or_assoc]
-      · exact hcs
-      · intro i hi
-        have hnot : i ∉ (classWrites t c).map Prod.fst := by
-          intro hm
-          exact hdis i ((classWrites_keys_sublist t c).subset hm) i hi rfl
-        rw [getElem?_writeLocs_of_not_mem _ _ _ hnot]
-        exact hag i (by simp [hi])
+    simp only [List.foldl_cons, classStep_eq t st c hagc, List.any_cons]
+    rw [ih]
+    · simp only [List.flatMap_cons, writeLocs_append, List.append_assoc, Bool.or_assoc]
+    · exact hcs
+    · intro i hi
+      have hnot : i ∉ (classWrites t c).map Prod.fst := by
+        intro hm
+        exact hdis i ((classWrites_keys_sublist t c).subset hm) i hi rfl
+      rw [getElem?_writeLocs_of_not_mem _ _ _ hnot]
+      exact hag i (by simp [hi])
 
 /-- explicit form of `repairOrd` over disjoint classes -/
 theorem repairOrd_eq (t : Table) (cs : List (List Nat)) (hnd : cs.flatten.Nodup) :
     repairOrd t cs =
-      if cs.any (classPanics t) then .panic
-      else match compact (writeLocs t (cs.flatMap (classWrites t))) (sortNat (cs.flatMap (classKept t))) with
+      match compact (writeLocs t (cs.flatMap (classWrites t))) (sortNat (cs.flatMap (classKept t))) with
         | none => .panic
         | some gg => if cs.any (classNil t) then .nilLoc else .ok gg := by
-  simp only [repairOrd, foldlM_classStep t cs ⟨t, [], false⟩ hnd (fun _ _ => rfl)]
-  by_cases hp : cs.any (classPanics t) = true
-  · simp only [hp, if_true]
-  · simp only [hp, if_false, Bool.false_eq_true, Bool.false_or]
-    rfl
+  simp only [repairOrd, foldl_classStep t cs ⟨t, [], false⟩ hnd (fun _ _ => rfl)]
+  simp only [Bool.false_or, List.nil_append]
+  rfl
 
 theorem classWrites_flat_nodup (t : Table) (cs : List (List Nat)) (hnd : cs.flatten.Nodup) :
     ((cs.flatMap (classWrites t)).map Prod.fst).Nodup := by
@@ -291,7 +273,7 @@ theorem repairOrd_perm (t : Table) (cs cs' : List (List Nat)) (hp : cs.Perm cs')
     (hnd : cs.flatten.Nodup) : repairOrd t cs = repairOrd t cs' := by
   have hnd' : cs'.flatten.Nodup := (hp.flatten.nodup_iff).mp hnd
   rw [repairOrd_eq t cs hnd, repairOrd_eq t cs' hnd']
-  rw [hp.any_eq (f := classPanics t), hp.any_eq (f := classNil t)]
+  rw [hp.any_eq (f := classNil t)]
   rw [sortNat_eq_of_perm (hp.flatMap_right (classKept t))]
   rw [writeLocs_congr t _ _ (classWrites_flat_nodup t cs hnd) (classWrites_flat_nodup t cs' hnd')
     (fun w => (hp.flatMap_right (classWrites t)).mem_iff)]
@@ -441,7 +423,7 @@ theorem compact_incr (gg : Table) (js : List Nat)
   simp only [compact, h1, Option.map_some]
   simpa using h2
 
-/-! ### explicit form of the result when no class overflows -/
+/-! ### explicit form of the result -/
 
 /-- the kept indices, ascending -/
 def specKeep (t : Table) : List Nat := sortNat ((Table.groups t).flatMap (classKept t))
@@ -449,14 +431,14 @@ def specKeep (t : Table) : List Nat := sortNat ((Table.groups t).flatMap (classK
 /-- the table after the location writes -/
 def specGG (t : Table) : Table := writeLocs t ((Table.groups t).flatMap (classWrites t))
 
-/-- the result of `Repair` when no class overflows (`Table.noStale`) -/
+/-- the table `Repair` returns (when it writes no `nil` location) -/
 def specRepair (t : Table) : Table := (specKeep t).filterMap fun j => (specGG t)[j]?
 
-theorem noStale_iff (t : Table) :
-    Table.noStale t = true ↔
-      ∀ idx ∈ Table.groups t, classP t idx ≠ [] ∧ (classP t idx).length ≤ idx.length := by
-  simp only [Table.noStale, List.all_eq_true, Bool.and_eq_true, Bool.not_eq_true', decide_eq_true_eq,
-    classP, List.isEmpty_eq_false_iff]
+theorem noNil_iff (t : Table) :
+    Table.noNil t = true ↔ (Table.groups t).any (classNil t) = false := by
+  simp only [Table.noNil, classNil, classN, classP, List.all_eq_true, List.any_eq_false,
+    Bool.not_eq_true', Bool.not_eq_true]
+  exact Iff.rfl
 
 theorem classN_of_ne_nil {t : Table} {idx : List Nat} (h : classP t idx ≠ []) :
     classN t idx = (classP t idx).length := by
@@ -465,46 +447,43 @@ theorem classN_of_ne_nil {t : Table} {idx : List Nat} (h : classP t idx ≠ []) 
   | nil => exact absurd hp h
   | cons a as => simp
 
-theorem classKept_sublist (t : Table) (idx : List Nat) (h : classN t idx ≤ idx.length) :
-    (classKept t idx).Sublist idx := by
-  simp only [classKept, h, if_true]
-  exact List.take_sublist _ _
+theorem specKeep_sublist (t : Table) :
+    ((Table.groups t).flatMap (classKept t)).Sublist (Table.groups t).flatten := by
+  have e : (Table.groups t).flatten = (Table.groups t).flatMap id := List.flatMap_id.symm
+  rw [e]
+  exact sublist_flatMap _ _ _ fun idx _ => classKept_sublist t idx
 
-theorem repair_eq_spec (t : Table) (h : Table.noStale t = true) : repair t = .ok (specRepair t) := by
-  rw [noStale_iff] at h
-  have hN : ∀ idx ∈ Table.groups t, classN t idx ≤ idx.length := fun idx hi => by
-    rw [classN_of_ne_nil (h idx hi).1]; exact (h idx hi).2
-  have hpan : (Table.groups t).any (classPanics t) = false := by
-    rw [List.any_eq_false]
-    intro idx hi
-    have := hN idx hi
-    have := le_goCap idx.length
-    simp only [classPanics, decide_eq_true_eq]
-    omega
-  have hnil : (Table.groups t).any (classNil t) = false := by
-    rw [List.any_eq_false]
-    intro idx hi
-    simp only [classNil, Bool.and_eq_true, decide_eq_true_eq, List.isEmpty_iff, not_and]
-    exact fun _ => (h idx hi).1
-  have hsub : ((Table.groups t).flatMap (classKept t)).Sublist (Table.groups t).flatten := by
-    have e : (Table.groups t).flatten = (Table.groups t).flatMap id := List.flatMap_id.symm
-    rw [e]
-    exact sublist_flatMap _ _ _ fun idx hi => classKept_sublist t idx (hN idx hi)
+theorem specKeep_sorted (t : Table) : (specKeep t).Pairwise (· < ·) := by
   have hnd : (specKeep t).Nodup :=
-    ((sortNat_perm _).nodup_iff).mpr (List.Nodup.sublist hsub (Table.groups_flatten_nodup t))
-  have hlt : (specKeep t).Pairwise (· < ·) := by
-    have h1 := sortNat_sorted ((Table.groups t).flatMap (classKept t))
-    have h2 : (specKeep t).Pairwise (· ≠ ·) := hnd
-    exact (h1.and h2).imp fun ⟨a, b⟩ => Nat.lt_of_le_of_ne a b
+    ((sortNat_perm _).nodup_iff).mpr (List.Nodup.sublist (specKeep_sublist t) (Table.groups_flatten_nodup t))
+  have h1 := sortNat_sorted ((Table.groups t).flatMap (classKept t))
+  have h2 : (specKeep t).Pairwise (· ≠ ·) := hnd
+  exact (h1.and h2).imp fun ⟨a, b⟩ => Nat.lt_of_le_of_ne a b
+
+/-- **`Repair` on every table**: never a panic; the explicit table, or the `nil`-location
+outcome when some class of two or more members has an empty pushed list -/
+theorem repair_eq (t : Table) :
+    repair t = if (Table.groups t).any (classNil t) then .nilLoc else .ok (specRepair t) := by
   have hb : ∀ j ∈ specKeep t, j < (specGG t).length := by
     intro j hj
-    have hj' : j ∈ (Table.groups t).flatten := hsub.subset ((sortNat_perm _).mem_iff.mp hj)
+    have hj' : j ∈ (Table.groups t).flatten := (specKeep_sublist t).subset ((sortNat_perm _).mem_iff.mp hj)
     simpa [specGG] using (Table.mem_groups_flatten t j).mp hj'
-  rw [repair, repairOrd_eq t _ (Table.groups_flatten_nodup t), hpan, hnil]
-  simp only [Bool.false_eq_true, if_false]
-  have := compact_incr (specGG t) (specKeep t) hlt hb
+  rw [repair, repairOrd_eq t _ (Table.groups_flatten_nodup t)]
+  have := compact_incr (specGG t) (specKeep t) (specKeep_sorted t) hb
   simp only [specGG, specKeep] at this
   rw [this]
   rfl
+
+theorem repair_eq_spec (t : Table) (h : (Table.groups t).any (classNil t) = false) :
+    repair t = .ok (specRepair t) := by
+  rw [repair_eq, h]; rfl
+
+/-- what `repair t = .ok t'` says -/
+theorem repair_ok (t t' : Table) (h : repair t = .ok t') :
+    (Table.groups t).any (classNil t) = false ∧ t' = specRepair t := by
+  rw [repair_eq] at h
+  cases hn : (Table.groups t).any (classNil t) with
+  | true => rw [hn] at h; simp at h
+  | false => rw [hn] at h; simp at h; exact ⟨rfl, h.symm⟩
 
 end Gts
